@@ -53,7 +53,17 @@ def run(ctx: core.Ctx):
                 continue
             judged = ~np.isnan(ref) & (np.abs(ref) <= 7000)
             if dt == "float32":
-                tol = 0.5 + 2.0 + 2e-3 * np.abs(ref)      # single-precision logarithms in the fit
+                # interval oracle: the float32 loop takes log(x) in single precision (error <= half an ulp of float32 at |log x| per term,
+                # hence the same bound on their mean); s = log(mean) - mean(log) is known to +-eps only, and the index is evaluated at both ends
+                eps = 0.75 * float(np.spacing(np.float32(max(info["maxlog"], 1e-3))))
+                lo_r, _ = spi.scipy_spi(xf, nd, cs, ce, ds=-eps)
+                hi_r, _ = spi.scipy_spi(xf, nd, cs, ce, ds=+eps)
+                if lo_r is None or hi_r is None:
+                    ctx.count("float32: s not resolved in single precision (out of claim)")
+                    continue
+                with np.errstate(all="ignore"):
+                    spread = np.nanmax(np.abs(np.stack([lo_r - ref, hi_r - ref])), axis=0)
+                tol = 0.5 + 1e-3 + 1.5 * np.nan_to_num(spread, nan=np.inf) + 1e-6 * np.abs(ref)
             else:
                 tol = 0.5 + 1e-4 + 1e-7 * np.abs(ref)
             valid = (xf != nd) & (xf >= 0)
